@@ -46,6 +46,9 @@ def run(fb, rep, tier):
     c6_options(fb, rep, cg)
     c7_go_frame(fb, rep)
     c8_no_blocking_during_search(fb, rep, cg)
+    c9_token_lookahead(fb, rep)
+    from . import C06
+    C06.nonpositive_clock(fb, rep, 'C05.10')
     rep.extra['call_graph'] = {'functions': len(cg.edges), 'thread_roots': [fb.kname(k) + ' <- ' + fb.kname(c) for k, c, _ in cg.thread_roots if R.in_engine(fb.funcs.get(c)) ] if True else []}
     rep.extra['constant_stub_branches_folded'] = sorted({'%s -> %s' % (n, v) for _, _, n, v in fb.folded})
 
@@ -515,3 +518,64 @@ def c8_no_blocking_during_search(fb, rep, cg):
     # the same for waitStop: only stopThread (which first installs the zero time limit, C06.2) may block on it
     R.who_may_call(rep, fb, cg, clause, 'EngineMainThread::waitStop', {'EngineControl::stopThread'}, scope=R.in_engine)
     R.who_may_call(rep, fb, cg, clause, 'EngineMainThread::waitOptionsSet', {'EngineControl::stopThread', 'EngineControl::waitReady'}, scope=R.in_engine)
+
+
+# ----------------------------------------------------------------------------- .9
+
+def c9_token_lookahead(fb, rep):
+    """K3 look-ahead discipline of the command parser: a token that is taken with a consuming read
+    (`tokens[idx++]`) is never afterwards *rejected* by a test that leaves the enclosing loop.  A word that only
+    ends a list (the first non-move after `searchmoves`) must be peeked at, not consumed - otherwise the
+    sub-command keyword that follows the list is swallowed, its argument is skipped as an unknown word, and a
+    limited `go` becomes an infinite one that never answers."""
+    clause = 'C05.9'
+    f = fb.find1('UCIProtocol::handleCommand')
+    if rep.need(clause, f, 'UCIProtocol::handleCommand') is None:
+        return
+
+    def consuming_read(t):
+        for n in walk(t):
+            if n.get('k') == 'call' and n.get('op') == '[]' and any(x.get('k') == 'incdec' for a in n.get('args', []) for x in walk(a)):
+                return True
+        return False
+    n_reads = 0
+    n_peek = 0
+    for b, i, e in f.events():
+        if e.get('k') == 'call' and e.get('op') == '[]' and 'basic_string' in (e.get('t') or '') + (cname(e) or '') or (e.get('k') == 'call' and e.get('op') == '[]' and 'vector' in cname(e)):
+            if any(x.get('k') == 'incdec' for a in e.get('args', []) for x in walk(a)):
+                n_reads += 1
+            else:
+                n_peek += 1
+    rep.floor(clause, 'consuming token reads in the command parser', n_reads, 10)
+    # values derived from a consuming read
+    derived = {}
+    for b, i, e in f.events():
+        if e.get('k') == 'decl':
+            for v in e.get('vars', []):
+                if v.get('init') is not None and consuming_read(v['init']):
+                    derived[v['id']] = (v['n'], e)
+    bad = []
+    for bid, blk in f.blocks.items():
+        if bid in f.dead:
+            continue
+        t = blk.get('term') or {}
+        c = t.get('cond')
+        if c is None or len(blk['succ']) != 2:
+            continue
+        used = [n['id'] for n in walk(c) if n.get('k') == 'var' and n.get('id') in derived]
+        direct = consuming_read(c)
+        if not used and not direct:
+            continue
+        for s_ in blk['succ']:
+            sb = f.blocks[s_]
+            # a side that does nothing but leave the loop
+            x = s_
+            hops = 0
+            while hops < 3 and not [ev for ev in f.blocks[x]['ev'] if ev.get('k') not in ('acc', 'dtor')] and (f.blocks[x].get('term') or {}).get('c') != 'BreakStmt' and len(f.blocks[x]['succ']) == 1:
+                x = f.blocks[x]['succ'][0]
+                hops += 1
+            if (f.blocks[x].get('term') or {}).get('c') == 'BreakStmt' and not [ev for ev in f.blocks[x]['ev'] if ev.get('k') not in ('acc', 'dtor')]:
+                bad.append((t.get('ln'), show(c, 80), [derived[u][0] for u in used]))
+    rep.ob(clause, 'K3 look-ahead', 'handleCommand: no token taken with a consuming read is afterwards rejected by a test that only leaves the loop (list terminators are peeked at)',
+           not bad, '%s:%s' % (f.file, bad[0][0]) if bad else f.where,
+           '; '.join('line %s: `%s` rejects %s' % (ln, c, vs or 'the token just consumed') for ln, c, vs in bad) if bad else '%d consuming reads, %d peeks' % (n_reads, n_peek), f.sname)
